@@ -71,6 +71,16 @@ static void case_invert(int n, int seed) {
   M ai = inv(a); V Au = a * u; V back = ai * Au;
   for (int i = 1; i <= n; i++) sx::check_eq(back(i), u(i), "inv(A)(A u) = u, component " + std::to_string(i));
   QMat Ai = qla::inverse(A); for (int i = 1; i <= n; i++) for (int j = 1; j <= n; j++) sx::check_eq(ai(i, j), sx::constant(Ai(i - 1, j - 1)), "inv(A) equals the exact inverse " + ij(i, j));
+  // the same operation on objects with a past: inverted before, copied from an inverted matrix, reset and refilled
+  auto same = [&](const M& x, const QMat& q, const std::string& what) { sx::check_true(x.rows() == n && x.cols() == n, what + ": dimensions", "");
+    for (int i = 1; i <= n; i++) for (int j = 1; j <= n; j++) sx::check_eq(x(i, j), sx::constant(q(i - 1, j - 1)), what + " " + ij(i, j)); };
+  { M t = a; t.invert(); t.invert(); same(t, A, "invert() twice on one object gives the matrix back"); }
+  { M f = a; f.invert(); M g(f); g.invert(); same(g, A, "invert() of a copy of an inverted matrix"); same(f, Ai, "the inverted source is untouched by inverting its copy"); }
+  { M f = a; f.invert(); M g; g = f; g.invert(); same(g, A, "invert() of an assigned copy of an inverted matrix"); same(f, Ai, "the inverted source is untouched by inverting its assigned copy"); }
+  { M t = a; t.invert(); t.reset(n, n); for (int i = 1; i <= n; i++) for (int j = 1; j <= n; j++) t(i, j) = a(i, j); t.invert(); same(t, Ai, "invert() after reset() and refill"); }
+  { M t = a; t.invert(); M big(n + 1, n + 1); big.set_identity(); big(1, n + 1) = sx::rat(2); t = big; t.invert(); QMat B(n + 1, n + 1); for (int i = 0; i <= n; i++) B(i, i) = 1; B(0, n) = -2;
+    sx::check_true(t.rows() == n + 1, "invert() after assigning a larger matrix: dimensions", ""); for (int i = 1; i <= n + 1; i++) for (int j = 1; j <= n + 1; j++) sx::check_eq(t(i, j), sx::constant(B(i - 1, j - 1)), "invert() after assigning a larger matrix " + ij(i, j)); }
+  { M t = inv(inv(a)); same(t, A, "inv(inv(A)) = A"); }
   bool threw = false; QMat Z = A; for (int j = 0; j < n; j++) Z(n - 1, j) = (n > 1) ? A(0, j) * 2 : Q(0);
   try { M z = q_mat(Z); z.invert(); } catch (const Exc&) { threw = true; }
   sx::check_true(threw, "inverting a singular matrix raises an exception", "");
